@@ -7,7 +7,7 @@ PROPERTY = 'C04'
 LEVEL = 'exploration'
 RULE = ('every sequence of <=k operations over {shell, exec_out, streaming_shell, root, list, stat, pull, push} on one connection (ids and leftover state chain) x '
         'remote-id families {small, 32-bit extremes, reused id, mirrored ids} x maxdata {4096, 64 KiB, 1 MiB} x chunkings {one, two, byte-wise} x CLSE {after ack, eager} x '
-        'push size {single, multi WRTE} x twins, device wire order enumerated; a slow device (late WRTE/CLSE against timeout_s, late OKAY inside a multi-WRTE push); the device closing the stream on its own after 0..3 WRTEs; oracle: the stream monitor of mc/monitor.py (OPEN shape and fresh id, '
+        'push size {single, multi WRTE} x twins, device wire order enumerated; a slow device (late WRTE/CLSE against timeout_s, late OKAY inside a multi-WRTE push, late confirmation of a host-initiated close); the device closing the stream on its own after 0..3 WRTEs; oracle: the stream monitor of mc/monitor.py (OPEN shape and fresh id, '
         '(local, announced remote) on every later packet, host OKAYs == device WRTEs, stop-and-wait, exactly one CLSE, nothing after it), the model stalling '
         'on a missing OKAY, and each result equal to the model\'s ground truth; non-trivial = sequence non-empty; distinct = distinct parameter tuple')
 ASSUMPTIONS = ['adbsim is a faithful adbd model', 'completion rules are asserted on operations that succeed (the quantifier of C04)']
@@ -151,6 +151,24 @@ def run_slow(params, ch):
                     'sample': dict(params, result=r[:2]), 'trans': len(s.env.events)}
         finally:
             s.finish()
+    if params['kind'] == 'close':
+        # the device confirms a host-initiated close late (later than the read timeout, or just in time)
+        cfg = scen.ops_cfg(params['chunking'], 4096, 'after-ack', 'small')
+        cfg['clse_reply_delay'] = params['delay']
+        s = Session(ch, cfg, twin=twin)
+        try:
+            s.op(('connect',))
+            op = scen.op_tuple(params['op'])
+            op = op[:-1] + (dict(op[-1], read_timeout_s=1.0),) if isinstance(op[-1], dict) else op + ({'read_timeout_s': 1.0},)
+            r = s.op(op)
+            viol = oracle.base_viol(s, completed=(r[0] == 'ok'))
+            if r[0] == 'ok' and r != scen.op_expected(params['op'], cfg):
+                viol.append({'msg': '%s returned %r' % (params['op'], r)})
+            if params['delay'] < 1.0 and r[0] != 'ok':
+                viol.append({'msg': '%s ended with %r although the device confirmed the close after %.1f s (read timeout 1 s)' % (params['op'], r[:2], params['delay'])})
+            return {'outcome': (r[:2],), 'viol': viol, 'nontrivial': tuple(sorted((k, str(v)) for k, v in params.items())), 'sample': dict(params, result=r[:2]), 'trans': len(s.env.events)}
+        finally:
+            s.finish()
     cfg = scen.ops_cfg('one', 4096, 'after-ack', 'small')
     cfg['okay_delay'] = {'nth': params['nth'], 'delay': params['delay']}
     s = Session(ch, cfg, twin=twin)
@@ -259,6 +277,7 @@ def parts(tier):
     sc7 = [{'kind': 'shell', 'api': api, 'twin': t, 'chunking': chk, 'clse': c, 'wd': wd, 'cd': cd, 'total': tot} for t in ('sync', 'async') for chk in ('one', 'two', 'bytes') for c in ('after-ack', 'eager')
            for wd in (0.0, 0.3, 0.6) for cd in (0.0, 0.3, 0.6) for tot in (None, 0.2, 0.5, 0.8, 1.4, 5.0) for api in ('shell', 'exec_out') if wd or cd]
     sc7 += [{'kind': 'push', 'twin': t, 'size': z, 'nth': n, 'delay': d, 'cb': cb} for t in ('sync', 'async') for z in (5000, 9000) for n in (1, 2, 3, 4) for d in (0.5, 1.5, 30.0) for cb in (None, 'count', 'raise')]
+    sc7 += [{'kind': 'close', 'twin': t, 'op': o, 'chunking': chk, 'delay': d} for t in ('sync', 'async') for o in ('list', 'stat', 'pull', 'push') for chk in ('one', 'bytes') for d in (0.5, 1.5, 30.0)]
     slow = Part('slow-device', sc7, run_slow, {'dev-order': None}, what='a slow but legal device on an advancing clock: late WRTEs / CLSE against the total timeout_s of shell and exec_out, and a late OKAY for the n-th WRTE of a '
                 'multi-WRTE push (read timeout 1 s)', bound='%d cases' % len(sc7))
     sc8 = [{'op': o, 'after': a, 'chunking': chk, 'clse': c, 'family': f, 'twin': t} for o in scen.OPS8 for a in (0, 1, 2, 3) for chk in ('two', 'bytes') for c in ('after-ack', 'eager') for f in ('small', 'mirror')
